@@ -632,6 +632,9 @@ impl Gen {
                 if fl.xor && fl.lenses {
                     c.push(22);
                 }
+                if fl.news && fl.streams && !sc.in_fold {
+                    c.push(23);
+                }
                 c[rng.below(c.len())]
             }
         };
@@ -933,6 +936,28 @@ impl Gen {
                 Node::Ap { src, dst }
             }
             21 if fl.never && !sc.in_fold => Node::Never,
+            23 => {
+                // a stream name used both globally and `new`-scoped, with `next` inside the `new`: in a later iteration
+                // an instruction outside the `new` span writes the global stream while the scoped one is still alive
+                let k = self.id();
+                let arrv = format!("v{k}");
+                let it = format!("it{k}");
+                let z = format!("$z{k}");
+                let arr = Node::Call { peer: PeerRef::Lit(rng.below(self.np)), service: "svc".into(), fname: format!("arr{k}"), args: vec![], out: Out::Scalar(arrv.clone()) };
+                let outside = Node::xor(
+                    Node::Match { l: Arg::Var { name: it.clone(), lens: vec![] }, r: Arg::Str(format!("arr{k}-1")), body: Box::new(Node::Ap { src: Arg::Var { name: it.clone(), lens: vec![] }, dst: z.clone() }) },
+                    Node::Null,
+                );
+                let inner_write = if rng.chance(50) {
+                    Node::Ap { src: Arg::Var { name: it.clone(), lens: vec![] }, dst: z.clone() }
+                } else {
+                    let j = self.id();
+                    Node::Call { peer: PeerRef::Lit(rng.below(self.np)), service: "svc".into(), fname: format!("f{j}"), args: vec![Arg::Var { name: it.clone(), lens: vec![] }], out: Out::Stream(z.clone()) }
+                };
+                let scoped = Node::New { var: z.clone(), body: Box::new(Node::seq(inner_write, Node::Next(it.clone()))) };
+                sc.scalars.push(Var { name: arrv.clone(), shape: Shape::Arr, fold_depth: sc.iters.len() });
+                Node::seq(arr, Node::Fold { iterable: Arg::Var { name: arrv, lens: vec![] }, it, body: Box::new(Node::seq(outside, scoped)), last: None })
+            }
             22 if fl.xor => {
                 // join under xor: an instruction that reads a value produced in a par sibling on another peer sits in
                 // the left branch of an xor; while the value has not arrived it must WAIT, never fail into the right branch
